@@ -51,9 +51,25 @@ func TestC16(t *testing.T) { propC16.run(t, Kinds) }
 // arithmetic of the parsers at the top of its range.
 var propC16Huge = func() parserProp {
 	pp := propC16
-	pp.tweak = hugeWindowTweak
+	pp.tweak = func(t *rapid.T, c *PCfg) {
+		hugeWindowTweak(t, c)
+		if rapid.Bool().Draw(t, "hwTinyTables") {
+			// tables of 2 to 8 slots: hardly any candidate survives, long
+			// stretches of literals also in periodic data
+			switch c.Kind {
+			case "HP", "BHP", "BUP":
+				c.HashBits = rapid.IntRange(1, 3).Draw(t, "hwTinyBits")
+				if c.InputLen > 4 {
+					c.InputLen = 3
+				}
+			case "DHP", "BDHP":
+				c.HashBits1, c.HashBits2 = rapid.IntRange(1, 3).Draw(t, "hwTinyBits1"), rapid.IntRange(1, 3).Draw(t, "hwTinyBits2")
+			}
+		}
+	}
 	pp.opts = func(kind string) histOpts {
 		o := propC16.opts(kind)
+		o.ntlAllPct = 20
 		o.ntl = 50
 		o.ntlPair = 6
 		o.uniformPct = 40
